@@ -1412,6 +1412,13 @@ package url
 //@   ensures (result1 == nil && specPartsN(input) == 4) ==> result0 == specIPv4Ser(specPartVal(input, 3) + specPartVal(input, 0) * 16777216 + specPartVal(input, 1) * 65536 + specPartVal(input, 2) * 256)   [C01,C07 value-four-parts]
 //@   ensures result1 == nil ==> (1 <= specPartsN(input) && specPartsN(input) <= 4)   [C01,C07]
 //@   loop 4 unroll 3
+//@   loop 4 exit-assert len(numbers) + 1 == specPartsN(input) && len(numbers) >= 0 && len(numbers) <= 3   [C01,C07 part-count]
+//@   loop 4 exit-assert forall k int :: 0 <= k && k < len(numbers) ==> (numbers[k] >= 0 && numbers[k] <= 255 && numbers[k] == specPartVal(input, k))   [C01,C07 leading-parts]
+//@   loop 4 exit-assert 0 <= specPartVal(input, len(numbers)) && specPartVal(input, len(numbers)) < specPow256(4 - len(numbers))   [C01,C07 last-part-range]
+//@   loop 4 exit-assert len(numbers) == 0 ==> ipv4 == specPartVal(input, 0)   [C01,C07 accumulated-value-1]
+//@   loop 4 exit-assert len(numbers) == 1 ==> ipv4 == specPartVal(input, 1) + specPartVal(input, 0) * 16777216   [C01,C07 accumulated-value-2]
+//@   loop 4 exit-assert len(numbers) == 2 ==> ipv4 == specPartVal(input, 2) + specPartVal(input, 0) * 16777216 + specPartVal(input, 1) * 65536   [C01,C07 accumulated-value-3]
+//@   loop 4 exit-assert len(numbers) == 3 ==> ipv4 == specPartVal(input, 3) + specPartVal(input, 0) * 16777216 + specPartVal(input, 1) * 65536 + specPartVal(input, 2) * 256   [C01,C07 accumulated-value-4]
 
 //@ func (*parser).parseIPv6
 //@   requires p != nil && u != nil && cur(input) && !input.eof && input.pointer == -1 && off(input.runes) == 0
